@@ -987,7 +987,7 @@ def run(ctx):
         for i in range(6):
             explore(ctx, h, drv, 60000, 50000, "main%d" % i, fresh=300)
     witnesses(ctx, h)
-    if ctx.proof_broken or ctx.corr_broken:
+    if (ctx.proof_broken or ctx.corr_broken) and not ctx.violations:
         ctx.log("obligation or correspondence broken: widening the search for a failing input")
         for i in range(3):
             explore(ctx, h, drv, 8000, 3000, "search%d" % i)
